@@ -1,9 +1,13 @@
 //! dsim: deterministic simulation scenarios over the std build of the in-tree dasp crates.
+mod adaptors;
+mod adframe;
 mod buffered;
 mod bus;
+mod eof;
 mod fork;
 mod probe;
 mod ringbuf;
+mod tree;
 
 use simcore::Scenario;
 
@@ -14,6 +18,8 @@ fn main() {
         &bus::BusScenario,
         &fork::ForkScenario,
         &buffered::BufferedScenario,
+        &adaptors::AdaptorsScenario,
+        &eof::EofScenario,
     ];
     simcore::cli::main(&scens)
 }
